@@ -1040,18 +1040,24 @@ func ruleSrt5(c *Ctx) {
 		return roots
 	}
 	// the call may have been moved into a private helper of the pipeline function: analyse from there
+	// … or the pipeline function may be a thin wrapper that hands all its work to another function (which may have
+	// a second entry point and so is not "private"): the pipeline then is that function's
 	hostOf := func(fn *ssa.Function, names ...string) *ssa.Function {
-		if len(resultsOf(fn, names...)) > 0 {
-			return fn
-		}
-		var hs []*ssa.Function
-		for h := range privateHelpersOf(c.P, fn, 2) {
-			hs = append(hs, h)
-		}
-		sort.Slice(hs, func(i, j int) bool { return c.P.Name(hs[i]) < c.P.Name(hs[j]) })
-		for _, h := range hs {
-			if len(resultsOf(h, names...)) > 0 {
-				return h
+		seenHost := map[*ssa.Function]bool{}
+		for cur := fn; cur != nil && !seenHost[cur]; cur = thinDelegate(cur) {
+			seenHost[cur] = true
+			if len(resultsOf(cur, names...)) > 0 {
+				return cur
+			}
+			var hs []*ssa.Function
+			for h := range privateHelpersOf(c.P, cur, 2) {
+				hs = append(hs, h)
+			}
+			sort.Slice(hs, func(i, j int) bool { return c.P.Name(hs[i]) < c.P.Name(hs[j]) })
+			for _, h := range hs {
+				if len(resultsOf(h, names...)) > 0 {
+					return h
+				}
 			}
 		}
 		return fn
